@@ -140,8 +140,11 @@ TEXT = {
     "C17": ("Theorems (all H, src, trees, paths): a partial tree (subtrees replaced by bare summaries) has the same root; "
             "every read / non-expanding write / expanding write that succeeds on it succeeds on the complete tree with "
             "related results and equal roots (expanding writes under Hinj, relying on the repaired setter); every failure "
-            "is a navigation error; summarize_into produces such a tree. View level tied by correspondence + model-free "
-            "comparison with the complete tree.",
+            "is a navigation error; summarize_into produces such a tree. View level (PartialViews.v): element / field get and "
+            "set, append, pop, bit get / set, Bitlist append / pop, union value and lengths that succeed on the partial tree "
+            "succeed on the complete tree with the same data and again related backings, so histories compose. "
+            "Serialisation / export / iteration over partial trees and the error classes of composed operations: "
+            "correspondence + model-free comparison of every read path with the complete tree.",
             "Coq proof (simulation relation summ, induction on paths) + correspondence", "5 (C17)"),
     "C18": ("Theorems: get_target_history (model of the fixed code, recursion on the gindex path with per-level "
             "de-duplication) equals 'look the position up in every entry and drop consecutive repeats' on keys and roots, "
